@@ -1294,22 +1294,47 @@ Proof. intros Hp H. destruct k; [left; reflexivity|]. destruct fs as [|f r]; [ri
   apply frames_pos_inv in Hp as [Hf Hr]. cbn [firstn span_sum] in H. pose proof (span_bounds f Hf).
   pose proof (span_sum_nonneg _ (frames_pos_firstn k r Hr)). lia. Qed.
 
+Lemma block_advances m bits init l im f r bl :
+  ctx bits init (im_pos im) l (f :: r) -> im_closed im = false -> in_i32 bl = true ->
+  must_block_advance bl (f :: r) = true ->
+  exists ret ds ws im', image_block_poll m l im bl = Ok (ret, ds, ws, im') /\ im_pos im < im_pos im'.
+Proof. intros Hc Hcl Hbl Hm. pose proof Hc as [Htl Hi Hwf _].
+  destruct (wf_call_facts _ _ _ _ Hwf) as (Hb & Hii & Hp & Hn & Ho & Hal & Hf & Hbase).
+  pose proof (wf_frames_pos _ _ _ _ Hf) as Hfp. set (off := im_pos im mod 2 ^ bits) in *.
+  assert (H30 : 2 ^ bits <= 2 ^ 30) by (apply Z.pow_le_mono_r; lia). change (2 ^ 30) with 1073741824 in H30.
+  pose proof (wf_frames_fit' _ _ _ _ Hf ltac:(lia)) as Hfit. cbn [span_sum] in Hfit.
+  apply frames_pos_inv in Hfp as [Hf1 Hr]. pose proof (span_bounds f Hf1) as Hsp. pose proof (span_sum_nonneg r Hr) as Hrs.
+  cbn [must_block_advance] in Hm. apply andb_prop in Hm as [Hpos Hfits].
+  unfold image_block_poll. rewrite Hcl, (ctx_sel _ _ _ _ _ Hc). cbn [bind]. fold off.
+  rewrite Htl. rewrite (block_lo off bl (2 ^ bits)) by (unfold two31; lia || (right; assumption)).
+  set (lo := Z.min (off + bl) (2 ^ bits)).
+  unfold term_scan. rewrite scan_loop_eq.
+  assert (E1 : off <? lo = true) by (unfold lo; lia). rewrite E1.
+  assert (Hge : off + span f <= (if is_pad f then (if off =? off then off + span f else off)
+                                 else if off + span f >? lo then off else scan_loop off lo r (off + span f))).
+  { destruct (is_pad f) eqn:Ep; [rewrite Z.eqb_refl; lia|]. cbn [orb] in Hfits.
+    assert (E2 : off + span f >? lo = false) by (unfold lo; lia). rewrite E2. apply scan_ge. assumption. }
+  set (ro := if is_pad f then (if off =? off then off + span f else off)
+             else if off + span f >? lo then off else scan_loop off lo r (off + span f)) in *.
+  assert (E3 : ro >? off = true) by lia. rewrite E3. do 4 eexists. split; [reflexivity|].
+  unfold after_writes, set_pos. cbn [last im_pos]. lia. Qed.
+
 Lemma block_facts m bl sl : slot_ok sl -> im_closed (slot_image sl) = false -> in_i32 bl = true ->
   let o := oslot_of sl in
   let '(n, sl', blocks) := bk_block m bl sl in
   slot_rel sl sl' /\ (forall b, In b blocks -> fo_session (blk_obs b) = slot_session sl) /\
   n = im_pos (slot_image sl') - im_pos (slot_image sl) /\
-  (os_wf o = true -> (let '(_, bits, _, _, _, pos, _) := o in block_excluded bits pos bl) = false ->
+  (os_wf o = true ->
      judge_block (os_session o) bl (os_pos o) (os_off o) (os_frames o)
-       (Ok n, map blk_obs blocks, synth_ws (os_pos o) (im_pos (slot_image sl')), im_pos (slot_image sl')) = true).
+       (Ok n, map blk_obs blocks, synth_ws (os_pos o) (im_pos (slot_image sl')), im_pos (slot_image sl')) = true /\
+     (must_block_advance bl (os_frames o) = true -> os_pos o < im_pos (slot_image sl'))).
 Proof. intros Hok Hopen Hbl. cbv zeta. destruct sl as [[[[[id bits] init] se] sg] im].
   cbn [slot_image slot_log slot_session oslot_of os_session os_pos os_off os_frames] in *.
   destruct Hok as (Hb & Hse & Hsg).
   (* when the property speaks, use the exact description of the call *)
   destruct (os_wf (id, bits, init, se, sg, im_pos im, im_closed im)) eqn:Ew.
   - pose proof (os_wf_ctx id bits init se sg im Ew) as Hc.
-    destruct (in_i32 (im_pos im mod 2 ^ bits + bl)) eqn:Ei.
-    + destruct (block_run m bits init _ im _ bl Hc Hopen Ei) as (k & ds & ws & im' & Hk & Hbadm & E & Hp & Hpos & Hzero).
+    + destruct (block_run_all m bits init _ im _ bl Hc Hopen (or_intror Hbl)) as (k & ds & ws & im' & Hk & Hbadm & E & Hp & Hpos & Hzero).
       unfold bk_block. cbn [slot_log slot_image]. rewrite E. cbn [slot_with slot_image].
       pose proof (block_static _ _ _ _ _ E) as (S1 & S2 & S3).
       set (fs := frames_at bits [sg] (im_pos im)) in *. set (len := span_sum (consumed fs k)) in *.
@@ -1320,7 +1345,11 @@ Proof. intros Hok Hopen Hbl. cbv zeta. destruct sl as [[[[[id bits] init] se] sg
         split; [repeat split; auto; congruence|]. split; [congruence|]. repeat split; try reflexivity. rewrite S1. reflexivity.
       * intros b Hb'. apply in_map_iff in Hb' as (d & <- & _). cbn [blk_obs fo_session]. exact Hse.
       * lia.
-      * intros _ _. unfold judge_block. apply (any_upto_intro _ _ k Hk). unfold judge_block_run. fold len.
+      * intros _. split.
+        2:{ intros Hm. destruct fs as [|f0 r0] eqn:Efs; [discriminate|].
+            destruct (block_advances m bits init _ im f0 r0 bl Hc Hopen Hbl Hm) as (ret2 & ds2 & ws2 & im2 & E2 & Hadv).
+            rewrite E in E2. inversion E2; subst. exact Hadv. }
+        unfold judge_block. apply (any_upto_intro _ _ k Hk). unfold judge_block_run. fold len.
         rewrite out_eqb_refl_ok, Hbadm. cbn [andb].
         assert (Hw : writes_ok (im_pos im) (im_pos im + len) [] (synth_ws (im_pos im) (im_pos im')) (im_pos im') = true).
         { unfold writes_ok, synth_ws. rewrite Hp. destruct (im_pos im + len =? im_pos im) eqn:Ez; cbn [nondecr last forallb].
@@ -1333,21 +1362,13 @@ Proof. intros Hok Hopen Hbl. cbv zeta. destruct sl as [[[[[id bits] init] se] sg
            cbn [map blk_obs list_eqb fst snd]. unfold fobs_eqb. rewrite !Z.eqb_refl, out_eqb_refl_ok, Hse, Z.eqb_refl. reflexivity.
         -- assert (Hl0 : len = 0) by lia. destruct (Hzero Hl0) as (Hds0 & _). rewrite Hds0. cbn [map].
            destruct (span_sum_zero fs k Hfp Hl0) as [Hk0|Hfs0]; [rewrite Hk0; reflexivity|rewrite Hfs0; destruct k; reflexivity].
-    + (* excluded: nothing to judge; the call panics (debug) or does nothing (release) *)
-      pose proof (block_poll_judged m _ bits init im _ bl Hc Hopen Hbl) as Hj. cbv zeta in Hj. rewrite Ei in Hj.
-      unfold bk_block. cbn [slot_log slot_image]. destruct m; rewrite Hj.
-      * split; [apply slot_rel_refl; [repeat split; auto|assumption]|]. split; [intros b []|]. split; [cbn; lia|].
-        intros _ He. unfold block_excluded in He. rewrite Ei in He. discriminate.
-      * split; [apply slot_rel_refl; [repeat split; auto|assumption]|]. split; [intros b []|]. split; [cbn; lia|].
-        intros _ He. unfold block_excluded in He. rewrite Ei in He. discriminate.
   - (* nothing to judge: only the shape of the result matters *)
     unfold bk_block, image_block_poll. cbn [slot_log slot_image]. rewrite Hopen.
     set (l := mk_log bits init se [sg]).
     assert (Hidle : slot_rel (id, bits, init, se, sg, im) (id, bits, init, se, sg, im)) by (apply slot_rel_refl; [repeat split; auto|assumption]).
     destruct (sel l (im_pos im)) as [[fs off]| | | |] eqn:Es; cbn [bind];
       try (split; [exact Hidle|]; split; [intros b []|]; split; [cbn; lia|intros; discriminate]).
-    destruct (add32 m off bl) as [s0| | | |]; cbn [bind];
-      try (split; [exact Hidle|]; split; [intros b []|]; split; [cbn; lia|intros; discriminate]).
+    set (s0 := sat_add32 off bl).
     assert (Hfp : frames_pos fs).
     { unfold sel in Es. destruct ((0 <=? index_by_position (im_pos im) (bits_of (l_tlen l))) && (index_by_position (im_pos im) (bits_of (l_tlen l)) <? PARTITION_COUNT));
         [|discriminate]. inversion Es. apply avail_pos. }
@@ -1364,8 +1385,8 @@ Definition jb_of (bl : Z) (sl : oslot) (_ : Z) (share : list fobs) (p' : Z) : bo
   if os_wf sl then
     let '(_, bits, _, _, _, pos, _) := sl in
     let ob1 := (Ok (p' - pos), share, synth_ws pos p', p') in
-    if block_excluded bits pos bl then true
-    else judge_block (os_session sl) bl pos (os_off sl) (os_frames sl) ob1
+    judge_block (os_session sl) bl pos (os_off sl) (os_frames sl) ob1
+    && (if must_block_advance bl (os_frames sl) then pos <? p' else true)
   else true.
 
 Lemma block_pass m bl ps : in_i32 bl = true -> forall imgs read,
@@ -1401,8 +1422,8 @@ Proof. intros Hbl. induction imgs as [|sl r IH]; intros read Hok Hop Hnd; cbn [b
         cbn [fst] in *. rewrite I3a, andb_true_r.
         unfold jb_of. destruct (os_wf (oslot_of sl)) eqn:Ew; [|reflexivity].
         destruct sl as [[[[[id bits] init] se] sg] im]. cbn [oslot_of] in *.
-        destruct (block_excluded bits (im_pos im) bl) eqn:Ex; [reflexivity|].
-        cbn [os_session os_pos os_off os_frames slot_image] in *. rewrite <- F3. apply F4; [reflexivity|first [exact Ex|reflexivity]].
+        cbn [os_session os_pos os_off os_frames slot_image] in *. rewrite <- F3. destruct (F4 eq_refl) as [F4a F4b]. rewrite F4a. cbn [andb].
+        destruct (must_block_advance bl (frames_at bits [sg] (im_pos im))); [|reflexivity]. specialize (F4b eq_refl). lia.
       * intros x Hx. apply in_map_iff in Hx as (b & <- & Hb'). apply F2. assumption.
       * destruct (map blk_obs bs2) as [|x rest] eqn:Em; [exact I|].
         assert (Hx : In x (map blk_obs bs2)) by (rewrite Em; left; reflexivity). apply in_map_iff in Hx as (b & <- & Hb').
